@@ -100,6 +100,16 @@ def valid_payload(rng, kind, total_len=None):
         if total_len is None:
             strs = [rand_text(rng, rng.randrange(0, 12)) for _ in range(4)]
             vend = rand_bytes(rng, rng.randrange(0, 6))
+            r = rng.random()
+            if r < 0.15:        # a block whose 16-bit length has a low byte >= 0x80 / crosses 255
+                ln = rng.choice([127, 128, 129, 200, 255, 256, 257, 384])
+                i = rng.randrange(5)
+                if i < 4:
+                    strs[i] = rand_text(rng, ln)
+                else:
+                    vend = rand_bytes(rng, ln)
+            elif r < 0.30:      # binary vendor data with zero bytes at its ends / only zero bytes
+                vend = rng.choice([bytes(rng.randrange(1, 5)), vend + b"\0", vend + b"\0\0", b"\0" + vend])
         else:
             # 26 + 4*(2+2) + 2 = 44 minimum
             room = max(0, total_len - 44)
@@ -112,6 +122,16 @@ def valid_payload(rng, kind, total_len=None):
         if total_len is None:
             ids = rand_bytes(rng, rng.randrange(0, 7))
             vend = rand_bytes(rng, rng.randrange(0, 6))
+            r = rng.random()
+            if r < 0.15:
+                ln = rng.choice([127, 128, 129, 255, 256, 257])
+                if rng.random() < 0.5:
+                    ids = rand_bytes(rng, ln)
+                else:
+                    vend = rand_bytes(rng, ln)
+            elif r < 0.30:
+                vend = rng.choice([bytes(rng.randrange(1, 5)), vend + b"\0", b"\0" + vend])
+                ids = rng.choice([ids, bytes(len(ids)), ids + b"\0"])
         else:
             room = max(0, total_len - 40)
             ids = b""
